@@ -196,6 +196,8 @@ func (w *lifeWorld) Do(st Step) string {
 			}
 		case "Reset":
 			w.builder(b).Reset()
+		case "Mistake":
+			w.mistake(b, t, st.Str("kind"))
 		case "OpenDebug":
 			mocker.OpenDebug()
 		case "CloseDebug":
@@ -210,6 +212,36 @@ func (w *lifeWorld) Do(st Step) string {
 			panic("lifeWorld: unknown op " + st.Str("op"))
 		}
 	})
+}
+
+// mistake issues an ill-formed instruction; it must panic (the runner requires a panic containing "" = any).
+func (w *lifeWorld) mistake(b, t, kind string) {
+	ue := w.kind == "uefunc" || w.kind == "uemethod"
+	switch kind {
+	case "arity":
+		var cb interface{} = func(a, c int) int { return 0 }
+		if w.isMethod() {
+			cb = func(s *fn.S, a, c int) int { return 0 }
+		}
+		if ue {
+			// unexported handles apply by name without a signature to compare with: use the typed view
+			w.handle(b, t).Apply(cb)
+		} else {
+			w.handle(b, t).Apply(cb)
+		}
+	case "size":
+		var cb interface{} = func(a int8) int { return 0 }
+		if w.isMethod() {
+			cb = func(s *fn.S, a int8) int { return 0 }
+		}
+		w.handle(b, t).Apply(cb)
+	case "ret-few":
+		w.handle(b, t).Return()
+	case "ret-size":
+		w.handle(b, t).Return(int8(1))
+	default:
+		panic("unknown mistake " + kind)
+	}
 }
 
 func (w *lifeWorld) call(t string, a int) (res int) {
